@@ -1150,7 +1150,11 @@ fn run_sweep_other_key(focus: &'static str, seed: u64, index: u64) -> CaseOut {
     let sites_delete = [Site::WeightDeleteAfterRemove, Site::WeightDeleteHoldingTotal, Site::SweepBeforeEvict];
     let sites_add = [Site::WeightAddBetween, Site::WeightDeleteAfterRemove, Site::WeightDeleteHoldingTotal, Site::AdmissionAfterSpaceCheck];
     let site = if variant == 2 { sites_add[((index / 4) % 4) as usize] } else { sites_delete[((index / 4) % 3) as usize] };
-    let case = J::obj().with("engine", J::s("conc")).with("scenario", J::s("sweep-other-key")).with("variant", J::Int(variant as i128)).with("focus", J::s(focus))
+    // variant 1, every fourth time: the sweeper keeps its shard for 150 ms (a slow destructor of an evicted value would do that), far beyond
+    // any bounded wait a client-side index operation might be tempted to use
+    let long_hold = variant == 1 && (index / 4) % 4 == 3;
+    let site = if long_hold { Site::SweepBeforeEvict } else { site };
+    let case = J::obj().with("engine", J::s("conc")).with("scenario", J::s("sweep-other-key")).with("sweeper_keeps_its_shard_for_150_ms", J::Bool(long_hold)).with("variant", J::Int(variant as i128)).with("focus", J::s(focus))
         .with("seed", J::Int(seed as i128)).with("index", J::Int(index as i128)).with("stretched_site", J::s(format!("{:?}", site))).with("config", sutcfg.to_json());
     let mut counts = Counts::default();
     let mut findings = Vec::new();
@@ -1183,7 +1187,8 @@ fn run_sweep_other_key(focus: &'static str, seed: u64, index: u64) -> CaseOut {
             client.write(&sut.cache, WriteOp::PutWTtl { key: 2, value: vk, weight: 30, ttl: Duration::from_secs(5) });
             client.settle_all(&marks);
             sched().forced_hits.store(0, Ordering::SeqCst);
-            sched().force_delay(site, 8_000, 1);
+            sched().force_delay(site, if long_hold { 150_000 } else { 8_000 }, 1);
+            if long_hold { counts.inc("ttl_changes_made_while_the_sweeper_kept_its_shard_for_150_ms"); }
             sut.advance(3 * NS); // J (expiry +1 s) is past, K (expiry +5 s) is still two seconds away; the current second maps to their shard
             let stalled = rt::poll_until(Duration::from_millis(300), || sched().forced_hits.load(Ordering::SeqCst) >= 1);
             // the sweeper now holds that TTL shard; change K's registration from a client
@@ -1317,6 +1322,66 @@ fn run_sweep_other_key(focus: &'static str, seed: u64, index: u64) -> CaseOut {
     if let Err(waited) = sut.finish_or_leak() { if findings.is_empty() { push_stuck(&mut findings, "shutdown after a sweep race", waited, &case); } }
     counts.inc("cases");
     CaseOut { findings, counts, signature, nontrivial, sample }
+}
+
+// ------------------------------------------------------------------------------------------------ scenario: a reader keeps reference guards while a key of the same shard expires
+
+/// A client holds `get_ref` guards on a handful of long-lived keys (covering every store shard) for 30 ms without calling the cache, while
+/// the clock passes the deadline of another key and the sweeper comes for it. However long the sweeper has to wait for the shard, once the
+/// reader lets go and the sweeps have gone round the expired key must be gone, released, and puttable again.
+fn run_held_ref(focus: &'static str, seed: u64, index: u64) -> CaseOut {
+    let mut rng = rt::rng_for(seed, index, 0x4EF);
+    let shards = *rng.pick(&[2usize, 4]);
+    let sutcfg = SutCfg { counters: 100, capacity: 16, max_weight: 100_000, shards, cmd_buf: 8, pool: 1, buf: 2, tick: Duration::from_millis(1),
+        weight_mode: WeightMode::Custom, hash_mode: HashMode::Default, start_ns: rt::START_NS };
+    let case = J::obj().with("engine", J::s("conc")).with("scenario", J::s("held-ref")).with("focus", J::s(focus)).with("seed", J::Int(seed as i128)).with("index", J::Int(index as i128)).with("config", sutcfg.to_json());
+    let mut counts = Counts::default();
+    let mut findings = Vec::new();
+    prep(1, 0, 0, 0, false);
+    let sut = Sut::new(sutcfg);
+    let marks = sut.marks;
+    let mut client = Client::new(1);
+    let expiring = client.token(1);
+    client.write(&sut.cache, WriteOp::PutWTtl { key: 1, value: expiring, weight: 30, ttl: Duration::from_secs(1) });
+    for key in 2..=12u64 { let v = client.token(key); client.write(&sut.cache, WriteOp::PutW { key, value: v, weight: 10 }); }
+    client.settle_all(&marks);
+    let hold_ms = *rng.pick(&[5u64, 30, 60]);
+    {
+        let guards: Vec<_> = (2..=12u64).filter_map(|key| sut.cache.get_ref(&key)).collect();
+        counts.add("reference_guards_held_while_a_key_expired", guards.len() as u64);
+        sut.advance((1 + shards as u64) * NS);
+        thread::sleep(Duration::from_millis(hold_ms)); // the reader is busy with what it read; it does not call the cache
+        drop(guards);
+    }
+    let mut nontrivial = false;
+    match sut.quiesce().and_then(|_| sut.settle_fresh()) {
+        Err(waited) => push_stuck(&mut findings, "sweeps after a reader let go of its guards", waited, &case),
+        Ok(()) => {
+            for _ in 0..(shards + 1) { sut.advance(NS); if sut.settle().is_err() { break; } }
+            nontrivial = true;
+            let snapshot = sut.snapshot();
+            if snapshot.stored.iter().any(|e| e.0 == 1) {
+                findings.push(Finding { props: vec!["C10", "C05", "C07"], signature: "C10/expired-key-still-stored-after-a-reader-let-go".into(),
+                    detail: format!("key 1 expired while a reader held reference guards on other keys for {} ms; the guards are gone, the sweeps went round all {} shards, and the entry is still in the store", hold_ms, shards), witness: case.clone(), inconclusive: false });
+            }
+            if snapshot.weight_used != 110 {
+                findings.push(Finding { props: vec!["C10", "C05"], signature: "C10/weight-after-a-reader-let-go".into(), detail: format!("eleven keys of weight 10 are held, the total is {}", snapshot.weight_used), witness: case.clone(), inconclusive: false });
+            }
+            let v = client.token(1);
+            let at = client.write(&sut.cache, WriteOp::PutW { key: 1, value: v, weight: 30 });
+            client.settle_all(&marks);
+            if let Outcome::Write { status: Some(Waited::Ready(status)), .. } = &client.log[at].outcome {
+                if *status != CommandStatus::Accepted {
+                    findings.push(Finding { props: vec!["C07", "C10"], signature: "C07/key-already-exists-for-unreadable-key/after-a-reader-let-go".into(),
+                        detail: format!("key 1 reads as absent (expired, sweeps done) and a put of it resolved to {}", status_name(status)), witness: case.clone(), inconclusive: false });
+                }
+            }
+            counts.inc("expiries_behind_held_reference_guards_checked");
+        }
+    }
+    if let Err(waited) = sut.finish_or_leak() { if findings.is_empty() { push_stuck(&mut findings, "shutdown after the held-ref case", waited, &case); } }
+    counts.inc("cases");
+    CaseOut { findings, counts, signature: fnv_step(0x4EF, hold_ms * 10 + shards as u64), nontrivial, sample: case }
 }
 
 // ------------------------------------------------------------------------------------------------ scenario: a readable key in a store shard that is kept write-locked (C07 / C08 directed)
@@ -1613,6 +1678,8 @@ pub fn run(args: &Args) -> Shard {
             "estimate" => crate::conc2::run_estimate(focus, seed, index),
             "release" => crate::conc2::run_release(focus, seed, index),
             "fanout" => crate::conc2::run_fanout(focus, seed, index),
+            "drop-backlog" => crate::conc2::run_drop_backlog(focus, seed, index),
+            "held-ref" => run_held_ref(focus, seed, index),
             "idle" => crate::conc2::run_idle(focus, seed, index),
             "ack-stats" => crate::conc2::run_ack_stats(focus, seed, index),
             "slow-tick" => crate::conc2::run_slow_tick(focus, seed, index),
